@@ -1,8 +1,10 @@
 //go:build verif
 
 // Driver for property C12: runs command sequences against a fresh mocktikv.MVCCLevelDB.
-//   mvcc gen            generate sequences (VERIF_SEED, VERIF_TIER), execute, print
-//   mvcc run FILE|-     execute the sequences of FILE ("S\t.." starts a fresh store, "C\t<cmd>" one command)
+//
+//	mvcc gen            generate sequences (VERIF_SEED, VERIF_TIER), execute, print
+//	mvcc run FILE|-     execute the sequences of FILE ("S\t.." starts a fresh store, "C\t<cmd>" one command)
+//
 // Output, tab separated:  S \t id \t class        O \t <cmd> \t <canonical response> \t <dump of all keys>
 // All numbers are hexadecimal. Keys are small ids (0 = empty key), values small ids (0 = empty).
 package main
@@ -219,6 +221,149 @@ func dump(st *mocktikv.MVCCLevelDB) string {
 	return sb.String()
 }
 
+func buildPrewrite(f []string) *kvrpcpb.PrewriteRequest {
+	req := &kvrpcpb.PrewriteRequest{PrimaryLock: kb(pu(f[1])), StartVersion: pu(f[2]), ForUpdateTs: pu(f[3]), LockTtl: pu(f[4]),
+		MinCommitTs: pu(f[5]), Context: &kvrpcpb.Context{}, TxnSize: 1}
+	if pb(f[6]) {
+		req.AssertionLevel = kvrpcpb.AssertionLevel_Strict
+	}
+	anyAct := false
+	var acts []kvrpcpb.PrewriteRequest_PessimisticAction
+	for _, ms := range strings.Split(f[7], ";") {
+		p := strings.Split(ms, ":")
+		m := &kvrpcpb.Mutation{Key: kb(pu(p[1])), Value: vb(pu(p[2]))}
+		switch p[0] {
+		case "P":
+			m.Op = kvrpcpb.Op_Put
+		case "D":
+			m.Op = kvrpcpb.Op_Del
+		case "L":
+			m.Op = kvrpcpb.Op_Lock
+		case "I":
+			m.Op = kvrpcpb.Op_Insert
+		case "C":
+			m.Op = kvrpcpb.Op_CheckNotExists
+		}
+		switch p[3] {
+		case "e":
+			m.Assertion = kvrpcpb.Assertion_Exist
+		case "x":
+			m.Assertion = kvrpcpb.Assertion_NotExist
+		}
+		req.Mutations = append(req.Mutations, m)
+		if pb(p[4]) {
+			anyAct = true
+			acts = append(acts, kvrpcpb.PrewriteRequest_DO_PESSIMISTIC_CHECK)
+		} else {
+			acts = append(acts, kvrpcpb.PrewriteRequest_SKIP_PESSIMISTIC_CHECK)
+		}
+	}
+	if anyAct {
+		req.PessimisticActions = acts
+	}
+	return req
+}
+
+func buildPessLock(f []string) (*kvrpcpb.PessimisticLockRequest, bool) {
+	req := &kvrpcpb.PessimisticLockRequest{PrimaryLock: kb(pu(f[1])), StartVersion: pu(f[2]), ForUpdateTs: pu(f[3]), LockTtl: pu(f[4]),
+		MinCommitTs: pu(f[5]), ReturnValues: pb(f[6]), CheckExistence: pb(f[7]), LockOnlyIfExists: pb(f[8]), Context: &kvrpcpb.Context{}}
+	force := pb(f[9])
+	if force {
+		req.WakeUpMode = kvrpcpb.PessimisticLockWakeUpMode_WakeUpModeForceLock
+	}
+	req.WaitTimeout = 1
+	if pb(f[10]) {
+		req.WaitTimeout = mocktikv.LockNoWait
+	}
+	for _, ks := range strings.Split(f[11], ",") {
+		p := strings.Split(ks, ":")
+		m := &kvrpcpb.Mutation{Op: kvrpcpb.Op_PessimisticLock, Key: kb(pu(p[0]))}
+		if pb(p[1]) {
+			m.Assertion = kvrpcpb.Assertion_NotExist
+		}
+		req.Mutations = append(req.Mutations, m)
+	}
+	return req, force
+}
+
+func canonPessLock(req *kvrpcpb.PessimisticLockRequest, resp *kvrpcpb.PessimisticLockResponse, force bool) string {
+	es := make([]string, len(resp.Errors))
+	for i, e := range resp.Errors {
+		es[i] = keyErr(e)
+	}
+	var rs []string
+	val := func(b []byte) string {
+		if len(b) == 0 {
+			return "-"
+		}
+		return vid(b)
+	}
+	b01 := func(b bool) string {
+		if b {
+			return "1"
+		}
+		return "0"
+	}
+	if force {
+		for _, r := range resp.Results {
+			switch r.Type {
+			case kvrpcpb.PessimisticLockKeyResultType_LockResultNormal:
+				rs = append(rs, "N("+val(r.Value)+","+b01(r.Existence)+")")
+			case kvrpcpb.PessimisticLockKeyResultType_LockResultLockedWithConflict:
+				rs = append(rs, "C("+val(r.Value)+","+b01(r.Existence)+","+hx(r.LockedWithConflictTs)+")")
+			default:
+				rs = append(rs, "F")
+			}
+		}
+	} else if len(resp.Errors) == 0 {
+		if req.ReturnValues {
+			for i := range resp.Values {
+				rs = append(rs, "N("+val(resp.Values[i])+","+b01(!resp.NotFounds[i])+")")
+			}
+		} else if req.CheckExistence {
+			for i := range resp.NotFounds {
+				rs = append(rs, "N(-,"+b01(!resp.NotFounds[i])+")")
+			}
+		}
+	}
+	return "E[" + strings.Join(es, ";") + "]R[" + strings.Join(rs, ";") + "]"
+}
+
+func canonMvcc(info *kvrpcpb.MvccInfo, key []byte) string {
+	var sb strings.Builder
+	sb.WriteString("M(" + kid(key) + ";")
+	if info == nil {
+		return "M(nil)"
+	}
+	if info.Lock == nil {
+		sb.WriteString("-")
+	} else {
+		fmt.Fprintf(&sb, "L(%s,%s,%s,%s)", hx(info.Lock.StartTs), kid(info.Lock.Primary), opc(info.Lock.Type), vid(info.Lock.ShortValue))
+	}
+	sb.WriteString("/")
+	for i, w := range info.Writes {
+		if i > 0 {
+			sb.WriteByte(',')
+		}
+		t := "?"
+		switch w.Type {
+		case kvrpcpb.Op_Put:
+			t = "P"
+		case kvrpcpb.Op_Del:
+			t = "D"
+		case kvrpcpb.Op_Rollback:
+			t = "R"
+		case kvrpcpb.Op_Lock:
+			t = "L"
+		}
+		fmt.Fprintf(&sb, "W(%s,%s,%s,%s)", t, hx(w.StartTs), hx(w.CommitTs), vid(w.ShortValue))
+		if i >= len(info.Values) || info.Values[i].StartTs != w.StartTs || vid(info.Values[i].Value) != vid(w.ShortValue) {
+			sb.WriteString("!values-mismatch")
+		}
+	}
+	return sb.String() + ")"
+}
+
 // exec runs one command (textual form, space separated) and returns the canonical response.
 func exec(st *mocktikv.MVCCLevelDB, c string) (res string) {
 	defer func() {
@@ -233,107 +378,11 @@ func exec(st *mocktikv.MVCCLevelDB, c string) (res string) {
 	si := kvrpcpb.IsolationLevel_SI
 	switch f[0] {
 	case "pw": // pw primary start fu ttl mc asserton mut;mut  (mut = op:key:val:assert:pesscheck)
-		req := &kvrpcpb.PrewriteRequest{PrimaryLock: kb(pu(f[1])), StartVersion: pu(f[2]), ForUpdateTs: pu(f[3]), LockTtl: pu(f[4]),
-			MinCommitTs: pu(f[5]), Context: &kvrpcpb.Context{}, TxnSize: 1}
-		if pb(f[6]) {
-			req.AssertionLevel = kvrpcpb.AssertionLevel_Strict
-		}
-		anyAct := false
-		var acts []kvrpcpb.PrewriteRequest_PessimisticAction
-		for _, ms := range strings.Split(f[7], ";") {
-			p := strings.Split(ms, ":")
-			m := &kvrpcpb.Mutation{Key: kb(pu(p[1])), Value: vb(pu(p[2]))}
-			switch p[0] {
-			case "P":
-				m.Op = kvrpcpb.Op_Put
-			case "D":
-				m.Op = kvrpcpb.Op_Del
-			case "L":
-				m.Op = kvrpcpb.Op_Lock
-			case "I":
-				m.Op = kvrpcpb.Op_Insert
-			case "C":
-				m.Op = kvrpcpb.Op_CheckNotExists
-			}
-			switch p[3] {
-			case "e":
-				m.Assertion = kvrpcpb.Assertion_Exist
-			case "x":
-				m.Assertion = kvrpcpb.Assertion_NotExist
-			}
-			req.Mutations = append(req.Mutations, m)
-			if pb(p[4]) {
-				anyAct = true
-				acts = append(acts, kvrpcpb.PrewriteRequest_DO_PESSIMISTIC_CHECK)
-			} else {
-				acts = append(acts, kvrpcpb.PrewriteRequest_SKIP_PESSIMISTIC_CHECK)
-			}
-		}
-		if anyAct {
-			req.PessimisticActions = acts
-		}
-		return errsc(st.Prewrite(req))
+		return errsc(st.Prewrite(buildPrewrite(f)))
 	case "pl": // pl primary start fu ttl mc rv ce loie force nowait key:ne,key:ne
-		req := &kvrpcpb.PessimisticLockRequest{PrimaryLock: kb(pu(f[1])), StartVersion: pu(f[2]), ForUpdateTs: pu(f[3]), LockTtl: pu(f[4]),
-			MinCommitTs: pu(f[5]), ReturnValues: pb(f[6]), CheckExistence: pb(f[7]), LockOnlyIfExists: pb(f[8]), Context: &kvrpcpb.Context{}}
-		force := pb(f[9])
-		if force {
-			req.WakeUpMode = kvrpcpb.PessimisticLockWakeUpMode_WakeUpModeForceLock
-		}
-		req.WaitTimeout = 1
-		if pb(f[10]) {
-			req.WaitTimeout = mocktikv.LockNoWait
-		}
-		for _, ks := range strings.Split(f[11], ",") {
-			p := strings.Split(ks, ":")
-			m := &kvrpcpb.Mutation{Op: kvrpcpb.Op_PessimisticLock, Key: kb(pu(p[0]))}
-			if pb(p[1]) {
-				m.Assertion = kvrpcpb.Assertion_NotExist
-			}
-			req.Mutations = append(req.Mutations, m)
-		}
+		req, force := buildPessLock(f)
 		st.ZZResetDeadlockDetector()
-		resp := st.PessimisticLock(req)
-		es := make([]string, len(resp.Errors))
-		for i, e := range resp.Errors {
-			es[i] = keyErr(e)
-		}
-		var rs []string
-		val := func(b []byte) string {
-			if len(b) == 0 {
-				return "-"
-			}
-			return vid(b)
-		}
-		b01 := func(b bool) string {
-			if b {
-				return "1"
-			}
-			return "0"
-		}
-		if force {
-			for _, r := range resp.Results {
-				switch r.Type {
-				case kvrpcpb.PessimisticLockKeyResultType_LockResultNormal:
-					rs = append(rs, "N("+val(r.Value)+","+b01(r.Existence)+")")
-				case kvrpcpb.PessimisticLockKeyResultType_LockResultLockedWithConflict:
-					rs = append(rs, "C("+val(r.Value)+","+b01(r.Existence)+","+hx(r.LockedWithConflictTs)+")")
-				default:
-					rs = append(rs, "F")
-				}
-			}
-		} else if len(resp.Errors) == 0 {
-			if req.ReturnValues {
-				for i := range resp.Values {
-					rs = append(rs, "N("+val(resp.Values[i])+","+b01(!resp.NotFounds[i])+")")
-				}
-			} else if req.CheckExistence {
-				for i := range resp.NotFounds {
-					rs = append(rs, "N(-,"+b01(!resp.NotFounds[i])+")")
-				}
-			}
-		}
-		return "E[" + strings.Join(es, ";") + "]R[" + strings.Join(rs, ";") + "]"
+		return canonPessLock(req, st.PessimisticLock(req), force)
 	case "pr": // pr s e keys start fu
 		return errsc(st.PessimisticRollback(kb(pu(f[1])), kb(pu(f[2])), keys(f[3]), pu(f[4]), pu(f[5])))
 	case "cm":
@@ -402,38 +451,7 @@ func exec(st *mocktikv.MVCCLevelDB, c string) (res string) {
 		return errc(st.DeleteRange(kb(pu(f[1])), kb(pu(f[2]))))
 	case "ms": // MvccGetByStartTS
 		info, key := st.MvccGetByStartTS(pu(f[1]))
-		var sb strings.Builder
-		sb.WriteString("M(" + kid(key) + ";")
-		if info == nil {
-			return "M(nil)"
-		}
-		if info.Lock == nil {
-			sb.WriteString("-")
-		} else {
-			fmt.Fprintf(&sb, "L(%s,%s,%s,%s)", hx(info.Lock.StartTs), kid(info.Lock.Primary), opc(info.Lock.Type), vid(info.Lock.ShortValue))
-		}
-		sb.WriteString("/")
-		for i, w := range info.Writes {
-			if i > 0 {
-				sb.WriteByte(',')
-			}
-			t := "?"
-			switch w.Type {
-			case kvrpcpb.Op_Put:
-				t = "P"
-			case kvrpcpb.Op_Del:
-				t = "D"
-			case kvrpcpb.Op_Rollback:
-				t = "R"
-			case kvrpcpb.Op_Lock:
-				t = "L"
-			}
-			fmt.Fprintf(&sb, "W(%s,%s,%s,%s)", t, hx(w.StartTs), hx(w.CommitTs), vid(w.ShortValue))
-			if i >= len(info.Values) || info.Values[i].StartTs != w.StartTs || vid(info.Values[i].Value) != vid(w.ShortValue) {
-				sb.WriteString("!values-mismatch")
-			}
-		}
-		return sb.String() + ")"
+		return canonMvcc(info, key)
 	case "get":
 		p := st.GetKVPair(kb(pu(f[1])), pu(f[2]), si, plist(f[3]))
 		if p.Err != nil {
@@ -489,6 +507,14 @@ func (r *runner) seq(id, class string, cmds []string) {
 	for _, c := range cmds {
 		r.cmd(c)
 	}
+	// a sample of the sequences also goes through the RPC handlers (see rpc.go)
+	every := 3
+	if class == "exhaustive" {
+		every = 40
+	}
+	if r.n%every == 0 {
+		runRPC(id, cmds)
+	}
 }
 
 func main() {
@@ -507,18 +533,34 @@ func main() {
 		}
 		sc := bufio.NewScanner(in)
 		sc.Buffer(make([]byte, 1<<20), 1<<24)
+		var rpcCmds []string // class "rpc": the sequence is run through the handlers too
+		rpcID := ""
+		flush := func() {
+			if rpcID != "" {
+				runRPC(rpcID, rpcCmds)
+			}
+			rpcID, rpcCmds = "", nil
+		}
 		for sc.Scan() {
 			f := strings.Split(sc.Text(), "\t")
 			switch f[0] {
 			case "S":
+				flush()
 				r.begin(f[1], f[2])
+				if f[2] == "rpc" {
+					rpcID = f[1]
+				}
 			case "C", "O":
 				if r.st == nil {
 					r.begin("0", "replay")
 				}
 				r.cmd(f[1])
+				if rpcID != "" {
+					rpcCmds = append(rpcCmds, f[1])
+				}
 			}
 		}
+		flush()
 		return
 	}
 	seed, _ := strconv.ParseInt(os.Getenv("VERIF_SEED"), 10, 64)
